@@ -5,42 +5,42 @@ ROOT = os.path.dirname(os.path.dirname(os.path.abspath(__file__)))
 
 CLAIMED = {
  "C09": dict(cat="exploration", ref="4 (C09), 2.2, 2.4",
-   text="Seeded search over thread counts 1..32 and over interleavings of the simulated OpenMP runtime (every fork, barrier, critical, single is a scheduler decision; strategies canonical/reverse/random/PCT/starve) for ten component families; oracles: bitwise equality across schedules at a fixed thread count, bitwise/rounding equality against the nt=1 (or nt=17) run by result class, level-scheduled Gauss-Seidel sweep == serial sweep, parallel ILU solve == serial solve up to rounding. A second stage compiles the same check with -fsanitize=thread instrumentation but links the simulator's own callbacks: every load/store inside a parallel region becomes a seeded preemption point and an event for a happens-before conflict detector (fork/join, barrier epochs, critical section, free->reuse edges); a candidate pair is confirmed by re-running the world with the two accesses forced into the opposite order and is a violation only if the result changes. Sampling, not proof: the right level for a property quantified over all schedules of a real OpenMP program.",
+   text="Seeded search over thread counts 1..32 and over interleavings of the simulated OpenMP runtime (every fork, barrier, critical, single is a scheduler decision; strategies canonical/reverse/random/PCT/starve) for ten component families; oracles: bitwise equality across schedules at a fixed thread count, bitwise/rounding equality against the nt=1 (or nt=17) run by result class, level-scheduled Gauss-Seidel sweep == serial sweep, parallel ILU solve == serial solve up to rounding. A second stage compiles the same check with -fsanitize=thread instrumentation but links the simulator's own callbacks: every load/store inside a parallel region becomes a seeded preemption point and an event for a happens-before conflict detector (fork/join, barrier epochs, critical section, free->reuse edges); a candidate pair is confirmed by re-running the world with the two accesses forced into the opposite order and is a violation only if the result changes. The level-scheduled sweeps are additionally run on enumerated 3x3..5x5 sparsity patterns (one drawn per case in the quick tier, all of them walked by run index in the thorough tier); component parameters are varied by seed. Sampling, not proof: the right level for a property quantified over all schedules of a real OpenMP program.",
    note="trusted: the fiber runtime reproduces libgomp's static schedules bit for bit (checked against real libgomp at nt=1,2,4,5,17); sequential consistency (weak-memory reorderings are not explored); team size always as requested; accesses inside libc memcpy/memset are not instrumented",
    technique="deterministic simulation: seeded schedule search over a simulated OpenMP runtime (fibers), differential oracles across thread counts and schedules"),
  "C10": dict(cat="exploration", ref="4 (C10), 2.6",
-   text="Heap-history differential: every generated valid world (incl. the degenerate inputs the statement lists) is run under a clean and three seeded dirty simulated heaps (fill 00/FF/AA/sNaN/random, LIFO recycling of stale blocks, shifted addresses, dirtied stack, 0-3 unrelated pre-history solves) and the complete output (hierarchy summary, preconditioner action, solution, iterations, residual, exception) must be bitwise identical; the simulated allocator's ledger must balance (no leak, no double/foreign delete - also for the zero-copy adapter); the same worlds run under ASan+UBSan with varying malloc fill. Sampling, not proof.",
+   text="Heap-history differential: every generated valid world (incl. the degenerate inputs the statement lists) is run under a clean and three seeded dirty simulated heaps (fill 00/FF/AA/sNaN/random, LIFO recycling of stale blocks, shifted addresses, dirtied stack, 0-3 unrelated pre-history solves) and the complete output (hierarchy summary, preconditioner action, solution, iterations, residual, exception) must be bitwise identical; the simulated allocator's ledger must balance (no leak, no double/foreign delete - also for the zero-copy adapter); the same worlds run under ASan+UBSan with varying malloc fill; half of the worlds vary the component parameters by seed (fill factors, thresholds, dampings, strength thresholds, restart lengths, ...), so that correctness is not tied to one configuration. Sampling, not proof.",
    note="trusted: replaced global operator new/delete sees every owned array (malloc-level allocations of libc/Eigen are not filled); ASan/UBSan report classification by exit code 77; uninitialised reads that never reach an output are only caught by the sanitizer stage if they are out of bounds",
    technique="deterministic simulation: seeded heap-state fault injection (fill/recycle/address) with bitwise differential oracle + allocator ledger + sanitizers inside simulated runs",
    replay="./build/plain/c10 --replay {path}"),
  "C19": dict(cat="fault_enumeration", ref="4 (C19), 2.7",
-   text="Fault enumeration on a simulated disk: images of MatrixMarket (sparse/dense, general/symmetric) and binary (CRS/dense) files for double/float/complex/integer data are damaged by explicit ops (truncation at EVERY byte offset of small images - exhaustive for the file at hand -, seeded bit flips, byte overwrites, lost tails, dropped/duplicated lines, corrupted banner keywords, inflated size fields, value/storage kind mismatch) and read back whole and by row range; oracle: fault-free images round-trip bitwise (incl. denormals, +-max, -0) and slices equal the full read; damaged images either throw std::exception or return a CRS structure valid for the sizes reported, and the four classes the statement names must throw; the same cases run under ASan+UBSan.",
+   text="Fault enumeration on a simulated disk: images of MatrixMarket (sparse/dense, general/symmetric) and binary (CRS/dense) files for double/float/complex/integer data are damaged by explicit ops (truncation at EVERY byte offset of small images - exhaustive for the file at hand -, seeded bit flips, byte overwrites, lost tails, dropped/duplicated lines, corrupted banner keywords, inflated size fields, value/storage kind mismatch) and read back whole and by row range; oracle: fault-free images round-trip bitwise (incl. denormals, +-max, -0) and slices equal the full read; damaged images either throw std::exception or return a CRS structure valid for the sizes reported, and the four classes the statement names must throw; size-line fields moved by one in either direction must be rejected or yield a valid matrix; size / kind queries (crs_size, dense_size, mm_reader::is_*) must agree with what was written; binary images are written with the library's own writers; the same cases run under ASan+UBSan.",
    note="trusted: memfd-backed /proc/self/fd paths behave like files for ifstream/ofstream (seek, short read, EOF); libstdc++ number parsing; corruption positions are sampled, only truncation is exhaustive per image; images whose size fields imply >16M-element allocations are skipped in the ASan stage (ASan aborts instead of throwing bad_alloc) and run in the plain stage under RLIMIT_AS",
    technique="deterministic simulation: simulated file layer with exhaustive truncation and seeded corruption fault injection, round-trip reference model, sanitizers inside simulated runs",
    replay="./build/plain/c19 --replay {path}"),
  "C15": dict(cat="exploration", ref="4 (C15), 2.8",
-   text="History exploration with failing calls as faults: seeded scripts of 2-12 operations on one solver object (all nine solver types, AMG and relaxation preconditioners, both sides, small restart lengths, copied and zero-copy inputs) mix solves, alternative-matrix solves, preconditioner applications and rebuilds with injected failures (zero/NaN/Inf/overflowing inputs, zero alternative matrix, 1-4 iteration budgets, a preconditioner wrapper that throws or writes NaN/Inf at its k-th call); every operation is compared bitwise (x, iterations, residual, exception type) with a freshly constructed object executing that operation alone; zero rhs => zero in 0 iterations; exact guess unchanged in 0 iterations; rhs and matrix arrays (incl. zero-copy user arrays) unmodified. Sampling of histories, not proof.",
+   text="History exploration with failing calls as faults: seeded scripts of 2-12 operations on one solver object (all nine solver types, AMG and relaxation preconditioners and the deflated solver with 1-2 deflation vectors, both sides, small restart lengths, seeded component parameters, copied and zero-copy inputs) mix solves, alternative-matrix solves, preconditioner applications and rebuilds with injected failures (zero/NaN/Inf/overflowing inputs, zero alternative matrix, 1-4 iteration budgets, a preconditioner wrapper that throws or writes NaN/Inf at its k-th call); every operation is compared bitwise (x, iterations, residual, exception type) with a freshly constructed object executing that operation alone; zero rhs => zero in 0 iterations (unless ns_search is set); exact guess unchanged in 0 iterations; rhs and matrix arrays (incl. zero-copy user arrays) unmodified. Sampling of histories, not proof.",
    note="trusted: 'fresh object' model = same constructor arguments, thread count and replayed rebuilds; emin coarsening only at nt=1 (its critical accumulation is schedule dependent, see C09); LGMRES with always_reset=false is exercised but excluded from the equality oracle as documented",
    technique="deterministic simulation: seeded operation/fault scripts against a fresh-object reference model, bitwise history-independence oracle",
    replay="./build/plain/c15 --replay {path}"),
  "C03": dict(cat="exploration", ref="4 (C03)",
-   text="History exploration over rebuild() sequences through the library's own policy seam: a recording coarsening policy and a recording relaxation policy log (A, P, R, A_c) of every level at construction and at every rebuild; invariants (Galerkin identity with the float over-interpolation factor against a dense long-double model, R = P^T, strictly decreasing sizes, coarsest-level solver choice) are checked after construction and after every rebuild; the history oracle compares the rebuilt hierarchy's action bitwise with a fresh hierarchy assembled from A' by a replaying policy that hands out the recorded P/R, and rebuild(A0) must restore the original action; both SpGEMM algorithms are reached through simulated thread counts <=16 and >=17; wrong-sized rebuilds are the injected failing calls. Sampling of inputs and histories.",
+   text="History exploration over rebuild() sequences through the library's own policy seam: a recording coarsening policy and a recording relaxation policy log (A, P, R, A_c) of every level at construction and at every rebuild; invariants (Galerkin identity with the float over-interpolation factor against a dense long-double model, R = P^T, strictly decreasing sizes, coarsest-level solver choice) are checked after construction and after every rebuild; the history oracle compares the rebuilt hierarchy's action bitwise with a fresh hierarchy assembled from A' by a replaying policy that hands out the recorded P/R, and rebuild(A0) must restore the original action; both SpGEMM algorithms are reached through simulated thread counts <=16 and >=17; wrong-sized rebuilds are the injected failing calls; a fifth of the worlds are complex-valued or 2x2-block-valued hierarchies (aggregation-type coarsenings) where R must be the ADJOINT of P entry by entry and A_c = R*A*P is checked in the value type's own algebra, at construction and after a rebuild. Sampling of inputs and histories.",
    note="trusted: the dense long-double product as reference; smoother fixed to SPAI-0 (the relaxation does not enter the level matrices); Galerkin check on levels with <=160 rows",
    technique="deterministic simulation: seeded rebuild histories with failing calls, recording/replaying policy seam, fresh-object reference model + dense Galerkin invariant",
    replay="./build/plain/c03 --replay {path}"),
  "C08": dict(cat="exploration", ref="4 (C08)",
-   text="The clause this technique decides is 'for all thread counts that select either SpGEMM algorithm' and every static chunking: each kernel runs inside a simulated OpenMP world (nt 1..32, seeded schedule, dirtied heap) on rectangular / empty-row / unsorted inputs with integer entries and is compared exactly with a dense model; structural invariants (monotone ptr, in-range columns, no duplicates for sorted inputs); Gershgorin >= spectral radius and power estimate <= largest singular value via Eigen. Sampling of inputs and thread counts, not the exhaustive small-pattern enumeration the statement also mentions.",
+   text="The clause this technique decides is 'for all thread counts that select either SpGEMM algorithm' and every static chunking: each kernel runs inside a simulated OpenMP world (nt 1..32, seeded schedule, dirtied heap) on rectangular / empty-row / unsorted inputs with integer entries and is compared exactly with a dense model; structural invariants (monotone ptr, in-range columns, no duplicates for sorted inputs); Gershgorin >= spectral radius and power estimate <= largest singular value via Eigen; spgemm_saad and spgemm_rmerge are also called directly at every thread count; complex product and conjugate transpose against an exact complex model; the block_matrix adapter / unblock_matrix pair against the dense definition for 2x2..4x4 blocks. Sampling of inputs and thread counts, not the exhaustive small-pattern enumeration the statement also mentions.",
    note="trusted: dense map-based model, Eigen eigen/singular values (n<=60); thread counts above the core count exist only in the simulated runtime",
    technique="deterministic simulation: kernels under simulated thread counts/schedules (both SpGEMM paths) against an exact dense reference model",
    replay="./build/plain/c08 --replay {path}"),
  "C07": dict(cat="exploration", ref="4 (C07)",
-   text="Decides the clauses of the statement that depend on prior memory content and on threading: every primitive is called inside a simulated OpenMP world (nt 1..32, every static chunking, per-thread partial sums of inner_product, seeded schedule, heap pre-filled with 0xAA) with its output buffer poisoned by NaN/+-Inf whenever the output coefficient is zero, and must return exactly the value of its defining formula (integer-valued data: exact in float, double, long double, complex, 2x2 blocks) on the builtin, block_crs (sizes not divisible by the block), builtin_hybrid and Eigen backends; scalar vectors passed for block vectors must give identical bits. Sampling.",
+   text="Decides the clauses of the statement that depend on prior memory content and on threading: every primitive is called inside a simulated OpenMP world (nt 1..32, every static chunking, per-thread partial sums of inner_product, seeded schedule, heap pre-filled with 0xAA) with its output buffer poisoned by NaN/+-Inf whenever the output coefficient is zero, and must return exactly the value of its defining formula (integer-valued data: exact in float, double, long double, complex, 2x2 blocks) on the builtin (all vector primitives also on 2x2 block vectors, vmul with a block diagonal), block_crs (sizes not divisible by the block), builtin_hybrid and Eigen (real and complex) backends; scalar vectors passed for block vectors must give identical bits. Sampling.",
    note="trusted: the formulas as coded in the harness (a few lines each); integer data make rounding irrelevant, so summation-order effects are out of scope here (they are C09's)",
    technique="deterministic simulation: primitives under simulated thread counts/schedules with poisoned output buffers (heap-content fault injection) against exact algebraic formulas",
    replay="./build/plain/c07 --replay {path}"),
  "C06": dict(cat="exploration", ref="4 (C06)",
-   text="Decided by simulation: the parallel level-scheduled triangular solves of the ILU family and of Gauss-Seidel equal the serial ones (bitwise for Gauss-Seidel, to rounding for ILU) for thread counts 4..32 under two seeded schedules per case, and every smoother's sweep is schedule independent. Evaluated as invariants in the same simulated worlds because they are cheap there: fixed point of the exact solution for all nine smoothers, closed formulas for damped Jacobi / Gauss-Seidel / SPAI-0, (LU)_ij = a_ij on the pattern of A through the extracted iteration matrix, exactness on tridiagonal and arrow matrices (scalar and 2x2 non-commuting blocks) and for ILU(k>n), SPAI-1 least-squares normal equations, Chebyshev affinity. Not decided: the level<=k pattern identity of ILU(k) beyond pattern(A) (the library uses a max-rule single pass, DESIGN 5.3 row 11) and ILUT's dropping rule.",
-   note="trusted: Eigen for inversion of the extracted matrices (n<=40, diagonally dominant families keep them well conditioned); tolerances 1e-9..1e-12 relative",
+   text="Decided by simulation: the parallel level-scheduled triangular solves of the ILU family and of Gauss-Seidel equal the serial ones (bitwise for Gauss-Seidel, to rounding for ILU) for thread counts 4..32 under two seeded schedules per case, and every smoother's sweep is schedule independent. Evaluated as invariants in the same simulated worlds because they are cheap there: fixed point of the exact solution for all nine smoothers, closed formulas for damped Jacobi / Gauss-Seidel / SPAI-0, (LU)_ij = a_ij on the pattern of A through the extracted iteration matrix, exactness on tridiagonal and arrow matrices (scalar and 2x2 non-commuting blocks) and for ILU(k>n), SPAI-1 least-squares normal equations, (LU)_ij = a_ij on the symbolic pattern of A^(k+1) for ILUP, the Chebyshev sweep as the degree-d Chebyshev polynomial q(A)e of the Gershgorin interval [lower*hi, higher*hi] (dense matrix recurrence, scaled and unscaled), apply() of every smoother against the sweep(s) from x = 0, ILU(k) against a reference factorisation with the library's level rule (worlds with a 'late admission', the recorded deviation of DESIGN 5.3 row 11, are skipped) and ILUT against a reference with the library's dual-threshold rule (worlds with magnitude ties are skipped).",
+   note="trusted: Eigen for inversion of the extracted matrices (n<=40, diagonally dominant families keep them well conditioned); tolerances 1e-9..1e-12 relative; the ILU(k) / ILUT references pin the rules the library documents and implements (level = max + 1; row tolerance tau*sum|a_ij|/(lenL+lenU), int(len*p) largest entries kept, the diagonal counted with U): a deliberate change of those rules would be flagged although the statement itself does not fix them",
    technique="deterministic simulation: seeded schedules over the level-scheduled parallel sweeps vs the serial sweep, plus definitional invariants from dense reference models",
    replay="./build/plain/c06 --replay {path}"),
  "C02": dict(cat="exploration", ref="4 (C02)",
@@ -49,18 +49,18 @@ CLAIMED = {
    technique="deterministic simulation: application histories with injected non-finite/huge inputs against the twice-extracted operator; spectral invariants on the extracted model",
    replay="./build/plain/c02 --replay {path}"),
  "C01": dict(cat="exploration", ref="4 (C01)",
-   text="Weakest fit of the twelve and stated as such: the statement quantifies over inputs and configurations; what the simulator adds is that every returned (iterations, residual) is produced inside a simulated world - thread counts 1..32 (cross-thread reductions in every inner product, thread-seeded IDR(s) space), seeded schedules, dirtied heap, a warm-up solve on the same object - and is checked against an independent long-double residual computed from the caller's own arrays (with the same preconditioner object for left preconditioning), the iteration budget, and the rule that non-finite outcomes are reported as non-finite. The convergence clause is checked on the narrow isotropic diffusion family with forced multilevel hierarchies and default parameters. Sampling.",
-   note="trusted: the rounding floor delta = 200*(iters+1)*n*u*(|A||x|/|f| + 1) (x100 for left preconditioning); cases whose floor exceeds a tenth of the tolerance are not judged; real double values only (complex/block systems are not generated); plain aggregation with default over-interpolation is a recorded finding for the convergence clause",
+   text="Weakest fit of the twelve and stated as such: the statement quantifies over inputs and configurations; what the simulator adds is that every returned (iterations, residual) is produced inside a simulated world - thread counts 1..32 (cross-thread reductions in every inner product, thread-seeded IDR(s) space), seeded schedules, dirtied heap, a warm-up solve on the same object - and is checked against an independent long-double residual computed from the caller's own arrays (with the same preconditioner object for left preconditioning), the iteration budget, and the rule that non-finite outcomes are reported as non-finite. The convergence clause is checked on the narrow isotropic diffusion family with forced multilevel hierarchies and default parameters. A fifth of the non-model worlds are complex-valued (Hermitian and not) or 2x2-block-valued systems judged in their own algebra; half of the non-model worlds vary the remaining component parameters by seed (Richardson damping, BiCGStab(L) delta/convex, IDR(s) smoothing/replacement/omega, restart lengths, fill factors, ...). Sampling.",
+   note="trusted: the rounding floor delta = 600*(iters+1)*(longest row + 1)*u*(|A||x|/|f| + 1), multiplied by the measured amplification |A P g|/|g| of the preconditioned operator (right-hand side and a random probe) plus its measured linearity defect (x100 for left preconditioning) - 0 violations in 360 000 solves of the unchanged tree; cases whose floor exceeds a tenth of the tolerance are not judged (about a third); plain aggregation with default over-interpolation is a recorded finding for the convergence clause",
    technique="deterministic simulation: truthfulness invariant over solves executed in simulated thread-count/schedule/heap/reuse worlds, independent long-double residual oracle",
    replay="./build/plain/c01 --replay {path}"),
  "C11": dict(cat="exploration", ref="4 (C11), 2.5",
-   text="Every number of ranks 1..8 and seeded contiguous partitions (all compositions, empty ranks included) are explored inside a simulated MPI in which ranks are fibers and every message, request and collective is a simulator object: delivery timing faults that a conforming MPI may show (send buffers read as late as the wait, receive buffers poisoned until the wait, rendezvous sends, a stalled rank, shuffled completion order) and seeded rank interleavings; each rank's results are written to harness memory and compared exactly (integer data) with the serial kernels on the assembled matrix; collective scalars must be bitwise identical on all ranks. The no-deadlock detector turns a blocked world into a violation with the blocked call of every rank. Sampling.",
+   text="Every number of ranks 1..8 and seeded contiguous partitions (all compositions, empty ranks included) are explored inside a simulated MPI in which ranks are fibers and every message, request and collective is a simulator object: delivery timing faults that a conforming MPI may show (send buffers read as late as the wait, receive buffers poisoned until the wait, rendezvous sends, a stalled rank, shuffled completion order) and seeded rank interleavings; each rank's results are written to harness memory and compared exactly (integer data) with the serial kernels on the assembled matrix; collective scalars (global sizes, inner product, plain and scaled Gershgorin estimate) must be bitwise identical on all ranks and equal to the serial value, the plain and scaled power estimates identical on all ranks; square matrices are distributed conformally or with independent row and column distributions; one object is moved to the backend with keep_src=true and then transposed, multiplied and copied again (history on one object). The no-deadlock detector turns a blocked world into a violation with the blocked call of every rank. Sampling.",
    note="trusted: the simulated MPI keeps non-overtaking order, matches collectives in call order and reduces in rank order (what mainstream MPIs do); loss/duplication/corruption/rank crashes are not injected because MPI promises reliable delivery; the real OpenMPI is never run",
    technique="deterministic simulation: simulated MPI (ranks as fibers) with seeded partitions, delivery-timing fault injection and schedule search; serial reference model",
    replay="./build/plain/c11 --replay {path}"),
  "C12": dict(cat="exploration", ref="4 (C12), 2.5",
-   text="The distributed coupled solver (mpi::amg through the MPI run-time wrappers, PMIS/aggregation coarsening, nine relaxations, eight solvers, skyline_lu coarse solver, merge repartitioning on and off) runs on 1..8 simulated ranks with seeded row distributions (empty ranks included), seeded rank interleavings and legal delivery-timing faults; oracles: every rank terminates (deadlock detector with the blocked call of each rank), identical (iterations, residual) bits on all ranks, the gathered solution has that true global residual (long double, harness side), convergence on SPD M-matrices. Not decided: the aggregate-partition / R*A*P / coarse-direct-solve clauses of the statement (they need a recording distributed coarsening wrapper that is not built). Sampling.",
-   note="trusted: as C11; partitioners other than merge and direct solvers other than skyline_lu are not available offline; worlds stop at 8 ranks and 900 unknowns; recorded findings for block-local Gauss-Seidel, CG with non-symmetric smoothers and Richardson with plain aggregation",
+   text="The distributed coupled solver (mpi::amg through the MPI run-time wrappers, PMIS/aggregation coarsening, nine relaxations, eight solvers, skyline_lu coarse solver, merge repartitioning on and off; in 30% of the worlds mpi::subdomain_deflation with 1-2 deflation vectors or mpi::block_preconditioner around a local AMG / smoother; seeded cycle and component parameters) runs on 1..8 simulated ranks with seeded row distributions (empty ranks included), seeded rank interleavings and legal delivery-timing faults; oracles: every rank terminates (deadlock detector with the blocked call of each rank), identical (iterations, residual) bits on all ranks, the gathered solution has that true global residual (long double, harness side), convergence on SPD M-matrices with default parameters; through a recording distributed coarsening wrapper: every rank coarsens every level, R = P^T, A_c = R*A*P (dense long-double model, levels <= 260 rows), every unknown with a strong neighbour (at the configured threshold) lies in an aggregate, no empty aggregate, exactly one unit entry per row for plain aggregation, and with supplied near-null-space vectors P*(P^T*B) = B on the aggregated rows, chained over the levels. Not decided separately: exactness of the distributed direct coarse solver (only through the solves). Sampling.",
+   note="trusted: as C11; partitioners other than merge and direct solvers other than skyline_lu are not available offline; worlds stop at 8 ranks and 900 unknowns; recorded findings for block-local Gauss-Seidel, CG with non-symmetric smoothers, Richardson with plain aggregation, aggregates smaller than the number of near-null-space vectors, and near-null-space vectors with repartitioning (the latter combination is not generated: it reads out of bounds); worlds with near-null-space vectors run on hierarchies of 2-3 levels without a convergence promise; subdomain deflation needs a non-empty subdomain per rank",
    technique="deterministic simulation: simulated MPI with delivery-timing fault injection, deadlock detection, rank-agreement and gathered-residual oracles",
    replay="./build/plain/c12 --replay {path}"),
 }
